@@ -1,0 +1,8 @@
+//go:build verif
+
+package icmp
+
+// VerifSetEchoIDBase sets the echo-id allocator's counter (the next id handed out is v+1 mod 65536).
+func VerifSetEchoIDBase(v uint32) {
+	curEchoID.Store(v)
+}
